@@ -450,7 +450,7 @@ fn hh(opt: bool, name: &str, value: Option<&str>) -> Header {
 
 fn corpus(ctx: &mut Ctx, r: &mut Rng) {
     // (#2, fixed by 343328d) `*`-version signatures must be found for HTTP/2 and HTTP/3 observations
-    let text = "classes = unix\n[http:request]\nlabel = s:!:Any:\nsig = *:Host,Accept,Foo:::\nlabel = s:!:One:\nsig = 1:Host,Accept,Foo:::\n[http:response]\nlabel = s:!:Srv:\nsig = *:Server,Date:::\n";
+    let text = "classes = unix\n[http:request]\nlabel = s:!:Any:\nsig = *:Host,Accept,Foo::\nlabel = s:!:One:\nsig = 1:Host,Accept,Foo::\n[http:response]\nlabel = s:!:Srv:\nsig = *:Server,Date::\n";
     if let Ok(db) = Database::from_str(text) {
         let mk = |v| http::Signature { version: v, horder: vec![hh(false, "Host", None), hh(false, "Accept", None), hh(false, "Foo", None)], habsent: vec![], expsw: String::new() };
         emit_http(ctx, &db, 0, &[mk(Version::V20), mk(Version::V30), mk(Version::V10), mk(Version::V11)]);
